@@ -203,3 +203,12 @@ Definition sum_p (p : profile) (l : list N) : trap N := sum_from p l 0.
 
 (** [opt.map(|x| f x)] is [option_map]; [v.push(x)] appends *)
 Definition vec_push {A} (v : list A) (x : A) : list A := v ++ [x].
+
+(** pattern binder for [bindR] (several loop-carried variables) *)
+Notation "' p <-? e ;; k" := (bindR e (fun p => k)) (at level 61, p pattern, e at next level, right associativity).
+
+(** [iter.min()] / [iter.max()] over u32 / u64 values: [None] for an empty iterator *)
+Definition min_of (l : list N) : option N :=
+  match l with [] => None | x :: r => Some (fold_left N.min r x) end.
+Definition max_of (l : list N) : option N :=
+  match l with [] => None | x :: r => Some (fold_left N.max r x) end.
